@@ -215,6 +215,13 @@ class BindContextBase:
         """Return True if is currently participating in a binding process."""
         return not isinstance(self.state, _IS_NOT_BINDING_STATES)
 
+    def _abandon_binding(self) -> None:
+        """A step of the binding has raised: stop being a participant (and stop its timer)."""
+        if self.is_binding:
+            if handle := getattr(self._state, "_timer_handle", None):
+                handle.cancel()
+            self.set_state(DevHasFailedBinding)
+
     def rcvd_msg(self, msg: Message) -> None:
         """Pass relevant Messages through to the state processor."""
         if msg.code in (Code._1FC9, Code._10E0):
@@ -251,19 +258,29 @@ class BindContextRespondent(BindContextBase):
             )
         self.set_state(RespIsWaitingForOffer)  # self._is_respondent = True
 
-        # Step R1: Respondent expects an Offer
-        tender = await self._wait_for_offer()
+        try:
+            # Step R1: Respondent expects an Offer
+            tender = await self._wait_for_offer()
 
-        # Step R2: Respondent expects a Confirm after sending an Accept (accepts Offer)
-        accept = await self._accept_offer(tender, accept_codes, idx=idx)
-        affirm = await self._wait_for_confirm(accept)
+            # Step R2: Respondent expects a Confirm after sending an Accept (accepts Offer)
+            accept = await self._accept_offer(tender, accept_codes, idx=idx)
+            affirm = await self._wait_for_confirm(accept)
 
-        # Step R3: Respondent expects an Addenda (optional)
-        if require_ratify:  # TODO: not recvd as sent to 63:262142
-            self.set_state(RespIsWaitingForAddenda)  # HACK: easiest way
-            ratify = await self._wait_for_addenda(accept)  # may: exc.BindingFlowFailed:
-        else:
-            ratify = None
+            # Step R3: Respondent expects an Addenda (optional)
+            if require_ratify:  # TODO: not recvd as sent to 63:262142
+                self.set_state(RespIsWaitingForAddenda)  # HACK: easiest way
+                ratify = await self._wait_for_addenda(accept)  # may: BindingFlowFailed
+            else:
+                ratify = None
+
+        except exc.BindingError:
+            self._abandon_binding()
+            raise
+        except BaseException as err:  # e.g. a send failed, or the caller gave up
+            self._abandon_binding()
+            if isinstance(err, Exception):
+                raise exc.BindingFlowFailed(f"{self}: binding failed: {err}") from err
+            raise
 
         # self._set_as_bound(tender, accept, affirm, ratify)
         return tender._pkt, accept, affirm._pkt, (ratify._pkt if ratify else None)
@@ -328,19 +345,29 @@ class BindContextSupplicant(BindContextBase):
 
         oem_code = ratify_cmd.payload[14:16] if ratify_cmd else None
 
-        # Step S1: Supplicant sends an Offer (makes Offer) and expects an Accept
-        tender = await self._make_offer(offer_codes, oem_code=oem_code)
-        accept = await self._wait_for_accept(tender)
+        try:
+            # Step S1: Supplicant sends an Offer (makes Offer) and expects an Accept
+            tender = await self._make_offer(offer_codes, oem_code=oem_code)
+            accept = await self._wait_for_accept(tender)
 
-        # Step S2: Supplicant sends a Confirm (confirms Accept)
-        affirm = await self._confirm_accept(accept, confirm_code=confirm_code)
+            # Step S2: Supplicant sends a Confirm (confirms Accept)
+            affirm = await self._confirm_accept(accept, confirm_code=confirm_code)
 
-        # Step S3: Supplicant sends an Addenda (optional)
-        if oem_code:
-            self.set_state(SuppIsReadyToSendAddenda)  # HACK: easiest way
-            ratify = await self._cast_addenda(accept, ratify_cmd)  # type: ignore[arg-type]
-        else:
-            ratify = None
+            # Step S3: Supplicant sends an Addenda (optional)
+            if oem_code:
+                self.set_state(SuppIsReadyToSendAddenda)  # HACK: easiest way
+                ratify = await self._cast_addenda(accept, ratify_cmd)  # type: ignore[arg-type]
+            else:
+                ratify = None
+
+        except exc.BindingError:
+            self._abandon_binding()
+            raise
+        except BaseException as err:  # e.g. a send failed, or the caller gave up
+            self._abandon_binding()
+            if isinstance(err, Exception):
+                raise exc.BindingFlowFailed(f"{self}: binding failed: {err}") from err
+            raise
 
         # self._set_as_bound(tender, accept, affirm, ratify)
         return tender, accept._pkt, affirm, ratify
